@@ -2,17 +2,18 @@
 # usage: tools/try_seed.sh <patch.diff> <check id>...   - runs the checks against a scratch copy of /repo with the patch applied
 set -u
 PATCH=$1; shift
-S=/tmp/scr_main/repo
-mkdir -p /tmp/scr_main
+SCR=${VERIF_SCRATCH:-/tmp/scr_main}     # set VERIF_SCRATCH to a directory of your own when several sessions try seeds at once
+S=$SCR/repo
+mkdir -p $SCR
 rsync -a --delete --exclude target --exclude .git /repo/ $S/ || exit 2
 (cd $S && patch -p1 -s < "$PATCH") || { echo "patch failed"; exit 2; }
 # rsync restores old mtimes: cargo would not notice that a file changed back. Touch every source file so that
 # every crate is rebuilt from what is on disk now (no stale mutant from an earlier run can survive).
 find $S -name "*.rs" -not -path "*/target/*" -exec touch {} +
 for c in "$@"; do
-  VERIF_REPO=$S VERIF_EVIDENCE=/tmp/scr_main/evidence VERIF_REPLAYS=/tmp/scr_main/replays VERIF_WORK=/tmp/scr_main/work /verif/check $c --tier quick > /tmp/scr_main/$c.log 2>&1
+  VERIF_REPO=$S VERIF_EVIDENCE=$SCR/evidence VERIF_REPLAYS=$SCR/replays VERIF_WORK=$SCR/work /verif/check $c --tier quick > $SCR/$c.log 2>&1
   rc=$?
-  echo "== $c exit=$rc  violations=$(grep -c '^VIOLATION' /tmp/scr_main/$c.log)"
-  grep -v '^   \|^VIOLATION' /tmp/scr_main/$c.log | tail -12
-  grep -A1 '^VIOLATION' /tmp/scr_main/$c.log | head -4 | cut -c1-600
+  echo "== $c exit=$rc  violations=$(grep -c '^VIOLATION' $SCR/$c.log)"
+  grep -v '^   \|^VIOLATION' $SCR/$c.log | tail -12
+  grep -A1 '^VIOLATION' $SCR/$c.log | head -4 | cut -c1-600
 done
